@@ -75,6 +75,23 @@ def read_grow_consts():
         if fac != "1.25":
             raise TranslateError("ElemStack growth factor of %s changed to %s" % (var, fac))
     out["elemGrowInitMin"] = min(int(i) for _, _, i in sites)
+    # DFAContentModel::buildDFA: initial size of statesToDo / fFinalStateFlags / fTransTable, the grow-if-full test and factor
+    dfa = strip_comments(open(os.path.join(V.REPO, "src/xercesc/validators/common/DFAContentModel.cpp")).read())
+    m = re.search(r"unsigned\s+int\s+curArraySize\s*=\s*fLeafCount\s*\*\s*(\d+)\s*;", dfa)
+    if not m:
+        raise TranslateError("buildDFA: initial curArraySize expression not recognised")
+    out["dfaInitFactor"] = int(m.group(1))
+    tests = re.findall(r"if\s*\(\s*curState\s*(==|>=|>|<=|<|!=)\s*curArraySize\s*\)", dfa)
+    if len(tests) != 1 or tests[0] not in ("==", ">=", ">"):
+        raise TranslateError("buildDFA: grow-if-full test not recognised: %r" % (tests,))
+    out["dfaGrowTest"] = {"==": 0, ">=": 1, ">": 2}[tests[0]]
+    m = re.search(r"newSize\s*=\s*\(unsigned\s+int\)\s*\(\s*curArraySize\s*\*\s*([0-9.]+)\s*\)", dfa)
+    if not m or m.group(1) != "1.5":
+        raise TranslateError("buildDFA: growth factor not recognised / changed")
+    out["dfaGrowNum"], out["dfaGrowDen"] = 3, 2
+    # the new state must be stored before the test, at index curState, then curState++ (shape the model assumes)
+    if not re.search(r"statesToDo\[curState\]\s*=\s*newSet\s*;.*?curState\+\+\s*;.*?if\s*\(\s*curState", dfa, flags=re.S):
+        raise TranslateError("buildDFA: store / increment / test order not recognised")
     return out
 
 
